@@ -296,6 +296,36 @@ func (v verdict) String() string { return [...]string{"unspecified", "must-accep
 
 // oracle evaluates the statement's predicate over the TRUE tree. mw: summed weight per member key.
 func (s *jsim) oracle(sp *jspec, mw map[int]uint64) (verdict, string) {
+	v, why, _ := s.oracle3(sp, mw)
+	return v, why
+}
+
+// oracle3 also reports whether more than f of the weight equivocates among the validly signed member precommits.
+func (s *jsim) oracle3(sp *jspec, mw map[int]uint64) (v verdict, why string, eqvOver bool) {
+	if len(sp.entries) > 0 {
+		keys := make([]int, 0, len(mw))
+		for k := range mw {
+			keys = append(keys, k)
+		}
+		sort.Ints(keys)
+		w := make([]uint64, len(keys))
+		pos := map[int]int{}
+		for i, k := range keys {
+			pos[k], w[i] = i, mw[k]
+		}
+		pc := newPhaseVotes(w)
+		for _, e := range sp.entries {
+			if _, member := mw[e.key]; member && e.sig == 0 {
+				pc.add(pos[e.key], e.block)
+			}
+		}
+		eqvOver = pc.eqvWeight() > faulty(pc.total())
+	}
+	v, why = s.oracleInner(sp, mw)
+	return
+}
+
+func (s *jsim) oracleInner(sp *jspec, mw map[int]uint64) (verdict, string) {
 	if len(sp.entries) == 0 {
 		return mustReject, "no precommits"
 	}
@@ -340,6 +370,11 @@ func (s *jsim) oracle(sp *jspec, mw map[int]uint64) (verdict, string) {
 		return unspecified, "foreign or badly signed entries next to a sufficient set"
 	}
 	// all entries are validly signed member precommits
+	if pc.eqvWeight() > faulty(total) {
+		// more equivocating weight than the f the protocol tolerates: the GHOST of the definition is not unique
+		// (an equivocator counts for every block, voted or not), the statement fixes no verdict
+		return unspecified, "equivocating weight above f"
+	}
 	low := sp.entries[0].block
 	for _, e := range sp.entries {
 		if s.t.number[e.block] < s.t.number[low] {
@@ -363,7 +398,7 @@ func (s *jsim) oracle(sp *jspec, mw map[int]uint64) (verdict, string) {
 		return unspecified, "equivocating weight makes the precommit GHOST ambiguous"
 	}
 	if !ok || g != sp.target {
-		return mustReject, fmt.Sprintf("precommit GHOST is %d, not the target", g)
+		return mustReject, fmt.Sprintf("precommit GHOST is not the target (it is b%d)", g)
 	}
 	// ancestry: exactly the blocks strictly above the lowest precommit up to every precommit
 	need := map[common.Hash]bool{}
@@ -557,9 +592,18 @@ func (s *jsim) oneJustification(j int) {
 	for x := s.t.parent[sp.target]; x >= 0; x = s.t.parent[x] {
 		below = append(below, x)
 	}
+	onChild := -1 // everybody votes above the target: the precommit GHOST is then higher than the commit target
+	if len(above) > 0 && k.Bool(1, 12, "all-vote-above-target") {
+		onChild = above[k.Choose(len(above), "all-vote-above-which")]
+		sp.tag("all-above-target")
+	}
 	for _, key := range signers {
 		b := sp.target
 		switch c := k.Choose(12, "vote"); {
+		case onChild >= 0:
+			if !k.Bool(1, 3, "but-this-one-on-target") {
+				b = onChild
+			}
 		case c <= 6:
 		case c <= 8 && len(above) > 0:
 			b = above[k.Choose(len(above), "vote-descendant")]
@@ -706,8 +750,11 @@ func (s *jsim) oneJustification(j int) {
 		rs = append(rs, res{e1 == nil, e2 == nil, e3 == nil})
 		errs = append(errs, fmt.Sprintf("service: %v | generic u32: %v | generic u64: %v", e1, e2, e3))
 	}
-	vS, whyS := s.oracle(sp, mwService)
-	vG, whyG := s.oracle(sp, mwGeneric)
+	vS, whyS, eqvOverS := s.oracle3(sp, mwService)
+	vG, whyG, eqvOverG := s.oracle3(sp, mwGeneric)
+	if eqvOverS || eqvOverG {
+		k.Probe("equivocating-weight-above-f")
+	}
 	acc3 := func(b bool) string {
 		if b {
 			return "accepted"
@@ -735,7 +782,11 @@ func (s *jsim) oneJustification(j int) {
 	}
 	k.Probe("oracle:" + vG.String())
 	if vG == mustReject {
-		k.Probe("must-reject:" + whyG)
+		if i := strings.Index(whyG, " ("); i > 0 {
+			k.Probe("must-reject:" + whyG[:i])
+		} else {
+			k.Probe("must-reject:" + whyG)
+		}
 	}
 	detail := func() string { return s.describe(sp, set, orders, errs) }
 	// 1. verdict against the predicate, per path, built order first
@@ -761,8 +812,10 @@ func (s *jsim) oneJustification(j int) {
 	if sp.tags["precommit-number-mismatch"] {
 		return // nothing is specified for votes naming a hash with a foreign number (panics are still caught)
 	}
-	// 2. the verdict must not depend on the order of precommits (and headers)
-	for oi := 1; oi < len(orders); oi++ {
+	// 2. the verdict must not depend on the order of precommits (and headers); not asserted when more than f
+	// of the weight equivocates (then the round's answer depends on which vote of an equivocator it sees first,
+	// and the definition gives no unique GHOST either)
+	for oi := 1; oi < len(orders) && !eqvOverS && !eqvOverG; oi++ {
 		if rs[oi] != rs[0] {
 			k.Violate("C19", "order-invariance", sp.tagString(), "verdict changes with the order of precommits/headers: built order svc=%v u32=%v u64=%v, permutation %d svc=%v u32=%v u64=%v\n%s",
 				rs[0].svc, rs[0].g32, rs[0].g64, oi, rs[oi].svc, rs[oi].g32, rs[oi].g64, detail())
